@@ -223,9 +223,11 @@ func C03(r *vf.Run) {
 		chunks := r.N(32, 1600)
 		r.Parallel(runtime.NumCPU(), chunks, func(wi, ci int) {
 			g := r.Rand("ctx").Fork(uint64(ci))
+			cells := map[string]int64{}
+			defer r.MergeCells(cells)
 			var n int64
-			for k := 0; k < 100 && !r.TooMany(); k++ {
-				calls, _, _ := genHistory(g, histOpts{maxCalls: 200, listing: g.Intn(4) == 0, withRefs: g.Intn(2) == 0, dataBlocks: g.Intn(4) == 0})
+			for k := 0; k < 200 && !r.TooMany(); k++ {
+				calls, _, _ := genHistory(g, histOpts{maxCalls: []int{200, 60}[k%2], listing: g.Intn(4) == 0, withRefs: g.Intn(2) == 0, dataBlocks: g.Intn(4) == 0, defineAll: true})
 				// operands biased to opcode-looking bytes
 				for i := range calls {
 					if calls[i].Op == "ins" && calls[i].M.Arg != aNone && calls[i].M.Arg != aLabel8 && calls[i].M.Arg != aLabel16 && g.Intn(3) == 0 && calls[i].M.Name != "REP" && calls[i].M.Name != "SEP" {
@@ -233,7 +235,24 @@ func C03(r *vf.Run) {
 						calls[i].Arg = (b[g.Intn(len(b))] | b[g.Intn(len(b))]<<8 | b[g.Intn(len(b))]<<16) & (uint32(1)<<(8*uint(calls[i].M.size()-1)) - 1)
 					}
 				}
-				runHistory(r, calls, false, 16384, "in-context")
+				var e *asm.Emitter
+				var sh *shadow
+				var ok bool
+				if g.Intn(2) == 0 {
+					// the same calls reaching the emitter through clones (fragments assembled separately)
+					e, sh, _, ok = runHistoryTree(r, g, calls, false, 16384, "in-context", cells)
+					cells["in-context:through-clones"]++
+				} else {
+					e, sh, _, ok = runHistory(r, calls, false, 16384, "in-context")
+				}
+				// with every label resolved, the label-taking methods' operands are part of the encoding too
+				if fe := sh.expectFinalize(); ok && fe.ok && len(sh.refs) > 0 {
+					if err := e.Finalize(); err == nil && string(e.Bytes()) != string(fe.code) {
+						at := firstDiff(e.Bytes(), fe.code)
+						r.Fail("in-context-finalized-bytes", fmt.Sprintf("after Finalize byte %d is %02x, the encoding of the emitted instruction has %02x there", at, e.Bytes()[at], fe.code[at]), histStrings(calls))
+					}
+					cells["in-context:finalized"]++
+				}
 				n += int64(len(calls))
 			}
 			r.Eval(n)
@@ -307,7 +326,9 @@ func C03(r *vf.Run) {
 					lineA := sb.String()
 					// full decode by the library's disassemblers: bytes, mnemonic and operand digits
 					pre := absPrim(&rig.prim)
-					det := func() interface{} { return map[string]interface{}{"method": m.Name, "arg": arg, "flags": flags, "code": vf.Hex(code)} }
+					det := func() interface{} {
+						return map[string]interface{}{"method": m.Name, "arg": arg, "flags": flags, "code": vf.Hex(code)}
+					}
 					checkTraceLine(r, "cpu65c816", lineP, pre, img, book, pre.PC, det)
 					checkTraceLine(r, "cpualt", lineA, pre, img, book, pre.PC, det)
 					for who, line := range map[string]string{"cpu65c816": lineP, "cpualt": lineA} {
